@@ -122,19 +122,26 @@ func (s *Server) servePacket(pc net.PacketConn) error {
 	// closeCh is used to receive notifications of socket closures from
 	// packetConn, which allows us to remove stale connections (whose
 	// proxy handlers have completed) from the udpConns map.
-	closeCh := make(chan string, 10)
+	closeCh := make(chan *packetConn, 10)
 	for {
 		select {
-		case addr := <-closeCh:
+		case closedConn := <-closeCh:
 			// UDP connection is closed (either implicitly through timeout or by
-			// explicit call to Close()).
-			delete(udpConns, addr)
+			// explicit call to Close()). A newer connection for the same
+			// downstream may already have taken its place; leave that one alone.
+			if addr := closedConn.addr.String(); udpConns[addr] == closedConn {
+				delete(udpConns, addr)
+			}
 
 		case pkt := <-packets:
 			if pkt.err != nil {
 				return pkt.err
 			}
 			conn, ok := udpConns[pkt.addr.String()]
+			if ok && conn.isClosed() {
+				// Closed, but its notification has not reached us yet.
+				ok = false
+			}
 			if !ok {
 				// No existing proxy handler is running for this downstream.
 				// Create one now.
@@ -143,6 +150,7 @@ func (s *Server) servePacket(pc net.PacketConn) error {
 					readCh:     make(chan *packet, 5),
 					addr:       pkt.addr,
 					closeCh:    closeCh,
+					closed:     make(chan struct{}),
 				}
 				udpConns[pkt.addr.String()] = conn
 				go func(conn *packetConn) {
@@ -156,7 +164,13 @@ func (s *Server) servePacket(pc net.PacketConn) error {
 				}(conn)
 			}
 			verifPoint("udp.loop.send")
-			conn.readCh <- &pkt
+			select {
+			case conn.readCh <- &pkt:
+			case <-conn.closed:
+				// The connection was closed while we were waiting for room in
+				// its queue; nobody will read this packet anymore.
+				udpBufPool.Put(pkt.pooledBuf)
+			}
 		}
 	}
 }
@@ -237,7 +251,11 @@ type packetConn struct {
 	net.PacketConn
 	addr    net.Addr
 	readCh  chan *packet
-	closeCh chan string
+	closeCh chan *packetConn
+	// closed is closed by Close(). readCh itself is never closed, because
+	// the server loop may be sending to it at any time.
+	closed    chan struct{}
+	closeOnce sync.Once
 	// If not nil, then the previous Read() call didn't consume all the data
 	// from the buffer, and this packet will be reused in the next Read()
 	// without waiting for readCh.
@@ -299,12 +317,10 @@ func (pc *packetConn) Read(b []byte) (n int, err error) {
 	var done bool
 	for !done {
 		select {
+		case <-pc.closed:
+			// Connection is closed. Return EOF below.
+			done = true
 		case pkt := <-pc.readCh:
-			if pkt == nil {
-				// Channel is closed. Return EOF below.
-				done = true
-				break
-			}
 			buf := bytes.NewReader(pkt.pooledBuf[:pkt.n])
 			n, err = buf.Read(b)
 			if buf.Len() == 0 {
@@ -334,7 +350,7 @@ func (pc *packetConn) Read(b []byte) (n int, err error) {
 	// the closure to ensure that if any new packets are received from this
 	// connection in the meantime, a new handler will be started.
 	verifPoint("udp.idle")
-	pc.closeCh <- pc.addr.String()
+	pc.closeCh <- pc
 	// Returning EOF here ensures that io.Copy() waiting on the downstream for
 	// reads will terminate.
 	return 0, io.EOF
@@ -346,22 +362,41 @@ func (pc *packetConn) Write(b []byte) (n int, err error) {
 
 func (pc *packetConn) Close() error {
 	verifPoint("udp.close")
-	if pc.lastPacket != nil {
-		udpBufPool.Put(pc.lastPacket.pooledBuf)
-		pc.lastPacket = nil
-	}
-	// This will abort any active Read() from another goroutine and return EOF
-	close(pc.readCh)
-	// Drain pending packets to ensure we release buffers back to the pool
-	for pkt := range pc.readCh {
-		udpBufPool.Put(pkt.pooledBuf)
-	}
-	// We may have already done this earlier in Read(), but just in case
-	// Read() wasn't being called, (re-)notify server loop we're closed.
-	pc.closeCh <- pc.addr.String()
+	// Handlers may close the connection themselves before the server does,
+	// so closing must be idempotent.
+	pc.closeOnce.Do(func() {
+		if pc.lastPacket != nil {
+			udpBufPool.Put(pc.lastPacket.pooledBuf)
+			pc.lastPacket = nil
+		}
+		// This will abort any active Read() from another goroutine and return EOF
+		close(pc.closed)
+		// Drain pending packets to ensure we release buffers back to the pool
+	drain:
+		for {
+			select {
+			case pkt := <-pc.readCh:
+				udpBufPool.Put(pkt.pooledBuf)
+			default:
+				break drain
+			}
+		}
+		// We may have already done this earlier in Read(), but just in case
+		// Read() wasn't being called, (re-)notify server loop we're closed.
+		pc.closeCh <- pc
+	})
 	// We don't call net.PacketConn.Close() here as we would stop the UDP
 	// server.
 	return nil
+}
+
+func (pc *packetConn) isClosed() bool {
+	select {
+	case <-pc.closed:
+		return true
+	default:
+		return false
+	}
 }
 
 func (pc *packetConn) RemoteAddr() net.Addr { return pc.addr }
